@@ -1,4 +1,108 @@
-(* placeholder until C16/Proofs*.v land: nothing is claimed proved yet *)
-From V Require Import C16.Glue.
-Theorem c16_placeholder : True. Proof. exact I. Qed.
-Print Assumptions c16_placeholder.
+(* C16 - B3 and Jaeger propagation: round-trip identity and the sampling decision.
+   Every theorem is about the Gallina model coq/C16/Model.v (tied to /repo by ./check C16);
+   ids are byte lists, [wf] contexts have a 16-byte trace id and an 8-byte span id (sizes read from /repo),
+   [sampled_bit f] is the lowest bit of the flags byte, [decode_id n s] reads 1..2n hex digits left-padded with zeros. *)
+From V Require Import C16.Glue C16.ProofsHex C16.Proofs C16.ProofsSpec.
+
+(* "For every valid span context, injecting with the B3 single-header ... propagator and extracting the result yields a
+   remote context with the same trace id and span id and the same sampled decision, whatever other flag bits ..." *)
+Theorem b3_single_roundtrip : forall c : span_ctx,
+  length (c_tid c) = kTraceIdBytes /\ length (c_sid c) = kSpanIdBytes -> ctx_valid c = true ->
+  exists c', b3_extract_carrier (b3_inject_single c) = Some c' /\
+             c_tid c' = c_tid c /\ c_sid c' = c_sid c /\ sampled_bit (c_flags c') = sampled_bit (c_flags c) /\ c_remote c' = true.
+Proof. exact b3_single_roundtrip_lemma. Qed.
+Print Assumptions b3_single_roundtrip.
+
+(* "... B3 multi-header ..." (refuted on the snapshot by F7; holds since c9c1ba8) *)
+Theorem b3_multi_roundtrip : forall c : span_ctx,
+  length (c_tid c) = kTraceIdBytes /\ length (c_sid c) = kSpanIdBytes -> ctx_valid c = true ->
+  exists c', b3_extract_carrier (b3_inject_multi c) = Some c' /\
+             c_tid c' = c_tid c /\ c_sid c' = c_sid c /\ sampled_bit (c_flags c') = sampled_bit (c_flags c) /\ c_remote c' = true.
+Proof. exact b3_multi_roundtrip_lemma. Qed.
+Print Assumptions b3_multi_roundtrip.
+
+(* "... or Jaeger propagator ..." *)
+Theorem jaeger_roundtrip : forall c : span_ctx,
+  length (c_tid c) = kTraceIdBytes /\ length (c_sid c) = kSpanIdBytes -> ctx_valid c = true ->
+  exists c', jaeger_extract_carrier (jaeger_inject c) = Some c' /\
+             c_tid c' = c_tid c /\ c_sid c' = c_sid c /\ sampled_bit (c_flags c') = sampled_bit (c_flags c) /\ c_remote c' = true.
+Proof. exact jaeger_roundtrip_lemma. Qed.
+Print Assumptions jaeger_roundtrip.
+
+(* an invalid context injects nothing; extraction from the untouched carrier returns the caller's context *)
+Theorem invalid_not_injected : forall k c, ctx_valid c = false -> inject k c = [] /\ roundtrip k c = None.
+Proof. exact invalid_not_injected_lemma. Qed.
+Print Assumptions invalid_not_injected.
+
+(* "Extraction accepts the documented variants (64-bit trace ids left-padded with zeros, B3 debug flag 'd' as sampled,
+   missing sampling field as not sampled, B3 single header taking precedence over multi headers)":
+   [doc_b3_sampling None = Some false], [doc_b3_sampling (Some "d") = Some true] by definition (Spec.v) *)
+Theorem b3_accepts_variants :
+  (forall t s smp par xt xs xf tid sid b,
+     decode_id 16 t = Some tid -> decode_id 8 s = Some sid -> nonzero tid = true -> nonzero sid = true ->
+     doc_b3_sampling smp = Some b ->
+     exists c, b3_extract (build_b3 t s smp par) xt xs xf = Some c /\
+               c_tid c = tid /\ c_sid c = sid /\ sampled_bit (c_flags c) = b /\ c_remote c = true) /\
+  (forall xt xs xf tid sid,
+     decode_id 16 xt = Some tid -> decode_id 8 xs = Some sid -> nonzero tid = true -> nonzero sid = true ->
+     exists c, b3_extract [] xt xs xf = Some c /\
+               c_tid c = tid /\ c_sid c = sid /\ c_remote c = true /\
+               (sampled_bit (c_flags c) = true <-> (xf = [ch_1] \/ xf = [ch_d]))) /\
+  (forall t tb, length t = 16 -> unhex t = Some tb -> decode_id 16 t = Some (zeros 8 ++ tb)) /\
+  (forall b3 xt xs xf, b3 <> [] -> b3_extract b3 xt xs xf = b3_extract b3 [] [] []).
+Proof. exact b3_accepts_variants_lemma. Qed.
+Print Assumptions b3_accepts_variants.
+
+(* the same for uber-trace-id = trace-id:span-id:parent:flags with variable-length ids and 1-2 digit flags *)
+Theorem jaeger_accepts_variants :
+  forall t s p f tid sid fl,
+     decode_id 16 t = Some tid -> decode_id 8 s = Some sid -> decode_id 1 f = Some [fl] ->
+     nonzero tid = true -> nonzero sid = true -> no_sep colon p = true ->
+     exists c, jaeger_extract (build_jaeger t s p f) = Some c /\
+               c_tid c = tid /\ c_sid c = sid /\ sampled_bit (c_flags c) = sampled_bit fl /\ c_remote c = true.
+Proof. exact jaeger_accepts_variants_lemma. Qed.
+Print Assumptions jaeger_accepts_variants.
+
+(* "for arbitrary bytes ... either installs a context with non-zero ids or returns the caller's context unchanged":
+   for every Context type, every SetSpan, every caller context and every byte string in every header *)
+Theorem extract_total_identity_or_nonzero :
+  forall (Ctx : Type) (set_span : Ctx -> span_ctx -> Ctx) (caller : Ctx),
+  (forall b3 xt xs xf,
+     b3_Extract set_span caller b3 xt xs xf = caller \/
+     exists c, b3_Extract set_span caller b3 xt xs xf = set_span caller c /\
+               nonzero (c_tid c) = true /\ nonzero (c_sid c) = true /\ length (c_tid c) = 16 /\ length (c_sid c) = 8 /\
+               c_remote c = true) /\
+  (forall h,
+     jaeger_Extract set_span caller h = caller \/
+     exists c, jaeger_Extract set_span caller h = set_span caller c /\
+               nonzero (c_tid c) = true /\ nonzero (c_sid c) = true /\ length (c_tid c) = 16 /\ length (c_sid c) = 8 /\
+               c_remote c = true).
+Proof. exact extract_total_lemma. Qed.
+Print Assumptions extract_total_identity_or_nonzero.
+
+(* the executable SPEC clauses hold of the model's observation, for every input *)
+Theorem model_meets_spec_b3 : forall b3 xt xs xf,
+  spec_b3_extract b3 xt xs xf (option_map obs_of (b3_extract b3 xt xs xf)) true = [].
+Proof. exact model_meets_spec_b3_lemma. Qed.
+Print Assumptions model_meets_spec_b3.
+
+Theorem model_meets_spec_jaeger : forall h,
+  spec_jaeger_extract h (option_map obs_of (jaeger_extract h)) true = [].
+Proof. exact model_meets_spec_jaeger_lemma. Qed.
+Print Assumptions model_meets_spec_jaeger.
+
+Theorem model_meets_spec_roundtrip : forall k c,
+  length (c_tid c) = kTraceIdBytes /\ length (c_sid c) = kSpanIdBytes ->
+  spec_roundtrip k c (option_map obs_of (roundtrip k c)) true = [].
+Proof. exact model_meets_spec_roundtrip_lemma. Qed.
+Print Assumptions model_meets_spec_roundtrip.
+
+(* on the wire format: for every parsable case line, the SPEC run on the model's output line reports nothing *)
+Theorem model_meets_spec : forall l, parse_case l <> None -> run_spec l (run_model l) = [].
+Proof. exact model_meets_spec_lemma. Qed.
+Print Assumptions model_meets_spec.
+
+(* the digit table the model decodes with is detail::kHexDigits as it stands in /repo *)
+Theorem hex_table_tie : forall c, hexint c = nth (N.to_nat (b2n c)) kHexDigits 0%Z.
+Proof. exact hexint_is_kHexDigits. Qed.
+Print Assumptions hex_table_tie.
